@@ -193,6 +193,11 @@ static double run_solve(const solve_in &in, vr::obj *extra = 0, size_t *it_out =
      .str("solver", in.solver).str("side", in.side).i("sided", in.sided).i("par", in.par).i("opt", in.opt)
      .str("coars", in.coars).str("relax", in.relax).str("pkind", in.pkind)
      .i("n", in.A->nrows).i("maxit", in.maxit).i("dflt", in.dflt).i("cfg", in.cfgid).i("tol", md(in.tol));
+    if (in.pkind == "amg" && !in.dflt)    // cycle parameters (-1 = default)
+        o.i("ce", in.prm.get("precond.amg.coarse_enough", -1)).i("npre", in.prm.get("precond.amg.npre", -1))
+         .i("npost", in.prm.get("precond.amg.npost", -1)).i("ncyc", in.prm.get("precond.amg.ncycle", -1))
+         .i("prec", in.prm.get("precond.amg.pre_cycles", -1)).i("dc", in.prm.get("precond.amg.direct_coarse", true))
+         .i("ml", in.prm.get("precond.amg.max_levels", -1));
     ++g_cases;
     double rep_out = -1;
     try {
@@ -391,6 +396,7 @@ static void mode_solve(int shard, int nshards) {
     for (size_t oi = 0; oi < order.size(); ++oi) {
         ++cfgid;
         if ((long)(cfgid % nshards) != shard) continue;
+        if (vr::env_int("C01_ONLY", -1) >= 0 && cfgid != vr::env_int("C01_ONLY", -1)) continue;   // replay one case
         vr::rng g(seed * 1000003ull + cfgid * 7 + 3);
         int t = order[oi];
         std::string s = SOLVERS[t % 8], relax = RELAX[(t / 8) % 9], coars = COARS[t / 72];
@@ -415,10 +421,13 @@ static void mode_solve(int shard, int nshards) {
         p.put("precond.amg.coarse_enough", g.range(20, 150));
         p.put("precond.amg.npre", g.range(1, 2));
         p.put("precond.amg.npost", g.range(1, 2));
-        p.put("precond.amg.ncycle", g.range(1, 2));
+        int ncycle = g.range(1, 2);
+        p.put("precond.amg.ncycle", ncycle);
         p.put("precond.amg.pre_cycles", g.range(1, 2));
         if (g.coin(0.2)) p.put("precond.amg.direct_coarse", false);
-        if (g.coin(0.2)) p.put("precond.amg.max_levels", g.range(2, 3));
+        // a W-cycle visits level l 2^l times: bound the depth (coarsening can stall on convection)
+        if (ncycle > 1) p.put("precond.amg.max_levels", g.range(2, 4));
+        else if (g.coin(0.2)) p.put("precond.amg.max_levels", g.range(2, 3));
         solver_params(p, s, in.side, in.par, in.opt, in.maxit, in.tol);
         if (s == "lgmres") { p.put("solver.M", std::max(1, in.par - 1)); p.put("solver.K", 1); in.par = std::max(1, in.par - 1) + 1; }
         rhs_and_guess(g, *pb.A, g.below(6), in.f, in.x0);
@@ -452,6 +461,7 @@ static void mode_spd(int shard, int nshards) {
         for (int ci = 0; ci < 4; ++ci) for (int ri = 0; ri < 9; ++ri) for (int si = 0; si < 8; ++si) {
             ++cfgid;
             if ((long)((cfgid + cfgid / 8) % nshards) != shard) continue;
+            if (vr::env_int("C01_ONLY", -1) >= 0 && cfgid != vr::env_int("C01_ONLY", -1)) continue;
             std::string s = SOLVERS[si];
             solve_in in; in.mode = "spd"; in.fam = pb.fam; in.solver = s; in.sided = is_sided(s); in.side = "right";
             in.coars = COARS[ci]; in.relax = RELAX[ri]; in.pkind = "amg"; in.cfgid = cfgid; in.A = pb.A; in.f = f; in.x0 = x0;
